@@ -99,3 +99,23 @@ seed(61, "mantis set_key compares key halves to skip the rotated unpack (memcmp-
 seed(62, "vector S-box lane extracted with a data-dependent index in the vec128 CTR back end", ["C08.R2"],
      ("src/skinny128-ctr-vec128.c", "    /* Read the rows of all four counter blocks into memory */\n    row0 = input[0];",
       "    /* Read the rows of all four counter blocks into memory */\n    row0 = input[0];\n    row0[0] ^= 0 * row0[input[1][0] & 3];"))
+
+seed(52, "D1 re-introduced in skinny128_set_tk2: uint16_t word and no zero fill", ["C10.R4", "C11.R1"],
+     ("src/skinny128-cipher.c", "static void skinny128_set_tk2\n    (Skinny128Key_t *ks, const void *key, unsigned key_size)\n{\n    Skinny128Cells_t tk;\n    unsigned index;\n    uint32_t word;",
+      "static void skinny128_set_tk2\n    (Skinny128Key_t *ks, const void *key, unsigned key_size)\n{\n    Skinny128Cells_t tk;\n    unsigned index;\n    uint16_t word;"))
+seed(63, "zero fill of the short tweakey removed in skinny64_set_tk3", ["C10.R4", "C11.R1"],
+     ("src/skinny64-cipher.c", "static void skinny64_set_tk3\n    (Skinny64Key_t *ks, const void *key, unsigned key_size)\n{\n    Skinny64Cells_t tk;\n    unsigned index;\n    uint16_t word;\n\n    /* Unpack the key and convert from little-endian to host-endian */\n    if (key_size >= SKINNY64_BLOCK_SIZE) {\n#if SKINNY_64BIT && SKINNY_LITTLE_ENDIAN\n        tk.llrow = READ_WORD64(key, 0);\n#elif SKINNY_LITTLE_ENDIAN\n        tk.lrow[0] = READ_WORD32(key, 0);\n        tk.lrow[1] = READ_WORD32(key, 4);\n#else\n        tk.row[0] = READ_WORD16(key, 0);\n        tk.row[1] = READ_WORD16(key, 2);\n        tk.row[2] = READ_WORD16(key, 4);\n        tk.row[3] = READ_WORD16(key, 6);\n#endif\n    } else {\n        /* Short key: the missing bytes are treated as zeroes */\n        memset(&tk, 0, sizeof(tk));",
+      "static void skinny64_set_tk3\n    (Skinny64Key_t *ks, const void *key, unsigned key_size)\n{\n    Skinny64Cells_t tk;\n    unsigned index;\n    uint16_t word;\n\n    /* Unpack the key and convert from little-endian to host-endian */\n    if (key_size >= SKINNY64_BLOCK_SIZE) {\n#if SKINNY_64BIT && SKINNY_LITTLE_ENDIAN\n        tk.llrow = READ_WORD64(key, 0);\n#elif SKINNY_LITTLE_ENDIAN\n        tk.lrow[0] = READ_WORD32(key, 0);\n        tk.lrow[1] = READ_WORD32(key, 4);\n#else\n        tk.row[0] = READ_WORD16(key, 0);\n        tk.row[1] = READ_WORD16(key, 2);\n        tk.row[2] = READ_WORD16(key, 4);\n        tk.row[3] = READ_WORD16(key, 6);\n#endif\n    } else {"))
+seed(34, "tweak zeroing removed from mantis_set_key", ["C11.R5"],
+     ("src/mantis-cipher.c", "    /* Set up the default tweak of zero */\n#if SKINNY_64BIT\n    ks->tweak.llrow = 0;\n#else\n    ks->tweak.lrow[0] = 0;\n    ks->tweak.lrow[1] = 0;\n#endif\n\n    /* Ready to go */", "    /* Ready to go */"))
+seed(35, "ecb->vtable = 0 removed from skinny64_parallel_ecb_init", ["C11.R4"],
+     ("src/skinny64-parallel.c", "        return 0;\n    }\n    ecb->vtable = 0;\n    ecb->ctx = ctx;", "        return 0;\n    }\n    ecb->ctx = ctx;"))
+seed(64, "rounds for 2-block Skinny-128 keys set to 40 instead of 48", ["C10.R5"],
+     ("src/skinny128-cipher.c", "        } else if (key_size <= (2 * SKINNY128_BLOCK_SIZE)) {\n            ks->rounds = 48;", "        } else if (key_size <= (2 * SKINNY128_BLOCK_SIZE)) {\n            ks->rounds = 40;"))
+seed(65, "skinny64 CTR set_key passes size - 1 to the core (off-by-one delegation)", ["C10.R2", "C10.R1"],
+     ("src/skinny64-ctr.c", "    if (!skinny64_set_key(&(ctx->kt.ks), key, size))\n        return 0;\n\n    /* Reset the keystream */\n    ctx->offset = SKINNY64_BLOCK_SIZE;\n    return 1;\n}\n\nstatic int skinny64_ctr_def_set_tweaked_key",
+      "    if (!skinny64_set_key(&(ctx->kt.ks), key, size > 24 ? 24 : size))\n        return 0;\n\n    /* Reset the keystream */\n    ctx->offset = SKINNY64_BLOCK_SIZE;\n    return 1;\n}\n\nstatic int skinny64_ctr_def_set_tweaked_key"))
+seed(66, "decrypt loop walks the schedule of a different bound (rounds hard-coded to 56)", ["C11.R6", "C03.R2"],
+     ("src/skinny128-cipher.c", "    schedule = &(ks->schedule[ks->rounds - 1]);\n    for (index = ks->rounds; index > 0; --index, --schedule) {", "    schedule = &(ks->schedule[SKINNY128_MAX_ROUNDS - 1]);\n    for (index = SKINNY128_MAX_ROUNDS; index > 0; --index, --schedule) {"))
+seed(67, "tweaked key set path forgets the upper length bound in skinny128_set_tweaked_key", ["C10.R1", "C14.R2"],
+     ("src/skinny128-cipher.c", "    if (!ks || !key || key_size < SKINNY128_BLOCK_SIZE ||\n            key_size > (SKINNY128_BLOCK_SIZE * 2)) {", "    if (!ks || !key || key_size < SKINNY128_BLOCK_SIZE ||\n            key_size > (SKINNY128_BLOCK_SIZE * 3)) {"))
